@@ -41,6 +41,7 @@ class Contract:
         self.origin = kw.pop("origin", "")
         self.verify = kw.pop("verify", True)  # False: contract is only *assumed* at call sites (trusted)
         self.xcheck = kw.pop("xcheck", None)
+        self.sorted_mode = kw.pop("sorted_mode", "permutation")
         if kw:
             raise TypeError("unknown contract options %r for %s" % (list(kw), key))
         self._clauses = {}
